@@ -1,12 +1,183 @@
-(* C04 - MILP answers are integer-feasible and OPTIMAL means proven optimal.  (theorems are added below as they are proved) *)
-From Coq Require Import List QArith Bool.
-From SV Require Import C03.Simplex C03.LPSpec C04.Milp C04.MilpInst.
+(* C04 - MILP answers are integer-feasible and OPTIMAL means proven optimal.
+   Model: SV.C04.Milp.solve_milp (best-first B&B of solvor/milp.py over Q) with two oracles: the LP kernel `lp`
+   (hypothesis lp_sound = the C03 soundness statements; intended instance MilpInst.simplex_kernel) and the LNS pass `lns`
+   (hypothesis lns_ok: what it returns passes _is_feasible; checked on every harness run).
+   milp_input_ok (boolean): 0 <= eps <= 1/4, well-formed dimensions and sorted integer indices, no non-zero coefficient
+   of |.| <= eps.
+   `solve_milp ... = Some r` excludes exhausted model fuel (None), which is an error value and never a Result. *)
+From Coq Require Import List QArith Qabs Bool.
+From SV Require Import C03.Simplex C03.LPSpec C04.Milp C04.MilpInst C04.MilpSpec C04.MilpBBProofs C04.MilpMainProofs
+  C04.MilpRoundProofs C04.MilpBinaryProofs C04.MilpTheorems C04.MilpFuelProofs C04.MilpC03Bridge.
 Import ListNotations.
 Open Scope Q_scope.
 
-(* max 5x+4y, 6x+4y<=24, x+2y<=6, x,y<=5 integer: optimum (4,0), 20 *)
+(* (1) every returned solution / entry of `solutions` satisfies A x <= b + eps, x >= -eps, is within eps of integers on
+   the integer variables, has the right length, and the reported objective is c.x *)
+Theorem C04_feasible : forall lp lns eps gap_tol minimize max_iter max_nodes c A b ints
+    warm_start solution_limit heuristics lns_iterations r,
+  lp_sound lp -> lns_ok lns eps c A b ints -> milp_input_ok eps c A b ints = true ->
+  solve_milp lp lns eps gap_tol minimize max_iter max_nodes c A b ints warm_start solution_limit heuristics lns_iterations = Some r ->
+  (forall x, m_solution r = Some x -> exists o, m_objective r = Fin o /\ sol_ok eps c A b ints x o)
+  /\ (forall ss x, m_solutions r = Some ss -> In x ss -> point_ok eps c A b ints x).
+Proof. exact feasible_thm. Qed.
+Print Assumptions C04_feasible.
+
+(* (2) OPTIMAL: no integer-feasible point is better than the reported objective by more than
+   opt_slack = max(eps, gap_tol * max(1, |best|)) *)
+Theorem C04_optimal : forall lp lns eps gap_tol minimize max_iter max_nodes c A b ints
+    warm_start solution_limit heuristics lns_iterations r,
+  lp_sound lp -> lns_ok lns eps c A b ints -> milp_input_ok eps c A b ints = true ->
+  solve_milp lp lns eps gap_tol minimize max_iter max_nodes c A b ints warm_start solution_limit heuristics lns_iterations = Some r ->
+  m_status r = S_OPTIMAL ->
+  exists x o, m_solution r = Some x /\ m_objective r = Fin o
+    /\ forall y, int_feasible c A b ints y -> sgn minimize * o - opt_slack eps gap_tol o <= sgn minimize * dot c y.
+Proof. exact optimal_thm. Qed.
+Print Assumptions C04_optimal.
+
+(* (3) INFEASIBLE: no integer-feasible point exists *)
+Theorem C04_infeasible : forall lp lns eps gap_tol minimize max_iter max_nodes c A b ints
+    warm_start solution_limit heuristics lns_iterations r,
+  lp_sound lp -> lns_ok lns eps c A b ints -> milp_input_ok eps c A b ints = true ->
+  solve_milp lp lns eps gap_tol minimize max_iter max_nodes c A b ints warm_start solution_limit heuristics lns_iterations = Some r ->
+  m_status r = S_INFEASIBLE -> forall y, ~ int_feasible c A b ints y.
+Proof. exact infeasible_thm. Qed.
+Print Assumptions C04_infeasible.
+
+(* UNBOUNDED is reported only when the LP relaxation is unbounded *)
+Theorem C04_unbounded_only_if_root_unbounded : forall lp lns eps gap_tol minimize max_iter max_nodes c A b ints
+    warm_start solution_limit heuristics lns_iterations r,
+  lp_sound lp -> lns_ok lns eps c A b ints -> milp_input_ok eps c A b ints = true ->
+  solve_milp lp lns eps gap_tol minimize max_iter max_nodes c A b ints warm_start solution_limit heuristics lns_iterations = Some r ->
+  m_status r = S_UNBOUNDED -> lp_unbounded minimize c A b.
+Proof. exact unbounded_thm. Qed.
+Print Assumptions C04_unbounded_only_if_root_unbounded.
+
+(* (4) the quantification itself: (1)-(3) hold for EVERY warm start, heuristics flag, lns_iterations, solution_limit,
+   max_nodes / max_iter, and every LNS oracle satisfying lns_ok (res_ok is the conjunction of the four conclusions) *)
+Theorem C04_heuristics_irrelevant : forall lp eps gap_tol minimize max_iter c A b ints,
+  lp_sound lp -> milp_input_ok eps c A b ints = true ->
+  forall lns, lns_ok lns eps c A b ints ->
+  forall warm_start heuristics lns_iterations solution_limit max_nodes r,
+    solve_milp lp lns eps gap_tol minimize max_iter max_nodes c A b ints warm_start solution_limit heuristics lns_iterations = Some r ->
+    res_ok eps gap_tol minimize c A b ints r.
+Proof.
+  exact (fun lp eps gap_tol minimize max_iter c A b ints LP OK lns LNS ws h li sl mn r RUN =>
+           all_ok lp lns eps gap_tol minimize max_iter mn c A b ints ws sl h li r LP LNS OK RUN).
+Qed.
+Print Assumptions C04_heuristics_irrelevant.
+
+(* instance: the C03 simplex model as LP kernel - an explicit implication on its soundness (C03's theorems) *)
+Theorem C04_simplex_instance : forall eps gap_tol minimize max_iter c A b ints,
+  lp_sound (simplex_kernel eps) -> milp_input_ok eps c A b ints = true ->
+  forall lns, lns_ok lns eps c A b ints ->
+  forall warm_start heuristics lns_iterations solution_limit max_nodes r,
+    solve_milp (simplex_kernel eps) lns eps gap_tol minimize max_iter max_nodes c A b ints warm_start solution_limit
+      heuristics lns_iterations = Some r ->
+    res_ok eps gap_tol minimize c A b ints r.
+Proof. exact (fun eps => C04_heuristics_irrelevant (simplex_kernel eps) eps). Qed.
+Print Assumptions C04_simplex_instance.
+
+(* discharging lp_sound: it follows from the three C03 soundness statements (the `_full_statement`s of Props/C03.v,
+   restated verbatim as c03_*_sound; C03 has so far proved the OPTIMAL one for LPs without phase 1).  With them, all of the
+   above holds for the B&B over the exact simplex model (eps = 0) with no hypothesis on the LP kernel left. *)
+Theorem C04_lp_sound_from_C03 :
+  c03_optimal_sound -> c03_infeasible_sound -> c03_unbounded_sound -> lp_sound (simplex_kernel 0).
+Proof. exact lp_sound_from_C03. Qed.
+Print Assumptions C04_lp_sound_from_C03.
+
+Theorem C04_exact_simplex_corollary :
+  c03_optimal_sound -> c03_infeasible_sound -> c03_unbounded_sound ->
+  forall gap_tol minimize max_iter c A b ints, milp_input_ok 0 c A b ints = true ->
+  forall lns, lns_ok lns 0 c A b ints ->
+  forall warm_start heuristics lns_iterations solution_limit max_nodes r,
+    solve_milp (simplex_kernel 0) lns 0 gap_tol minimize max_iter max_nodes c A b ints warm_start solution_limit
+      heuristics lns_iterations = Some r ->
+    res_ok 0 gap_tol minimize c A b ints r.
+Proof.
+  exact (fun HO HI HU gap_tol minimize max_iter c A b ints =>
+           C04_simplex_instance 0 gap_tol minimize max_iter c A b ints (lp_sound_from_C03 HO HI HU)).
+Qed.
+Print Assumptions C04_exact_simplex_corollary.
+
+(* the detect_binary tightening is justified (used inside the theorems above) *)
+Theorem C04_detect_binary_sound : forall eps c A b ints,
+  0 <= eps -> eps <= 1 # 4 -> valid_lp c A b = true -> tiny_free eps A = true ->
+  detect_binary eps A b ints (length c) = true ->
+  forall y, int_feasible c A b ints y -> forall j, In j ints -> nth j y 0 <= 1.
+Proof. exact detect_binary_sound. Qed.
+Print Assumptions C04_detect_binary_sound.
+
+(* the boolean checker used by the harness on the IMPLEMENTATION's results *)
+Theorem C04_spec_check_sound : forall eps c A b ints tol r,
+  spec_check eps c A b ints tol r = true -> Spec eps c A b ints tol r.
+Proof. exact spec_check_sound. Qed.
+Print Assumptions C04_spec_check_sound.
+
+(* heuristic incumbents are feasibility-checked: whatever _round_binary (code after 7e63594) returns passes _is_feasible *)
+Theorem C04_round_binary_checked : forall eps minimize c A b ints lp_solution rd,
+  round_binary eps lp_solution ints c A b minimize = Some (Some rd) ->
+  length rd = length lp_solution /\ is_feasible eps rd A b ints = true.
+Proof. exact round_binary_feasible. Qed.
+Print Assumptions C04_round_binary_checked.
+
+(* the PINNED variant before commit 7e63594 (round_binary_gen false: a swap trial "restores" 0.0 / 1.0 instead of the old
+   values) did not have this property: an integer variable within eps of 1 that is no rounding candidate is overwritten
+   with exactly 1 and the result fails _is_feasible.  Was replayed on the real code before the fix:
+   solve_milp([1,2],[[2000000,0],[0,2]],[1999999,1],[0,1],minimize=False) -> OPTIMAL (1.0, 0.0), row 0 violated. *)
+Theorem C04_round_binary_unchecked_pinned_refuted :
+  exists eps lp_solution ints c A b minimize rd,
+    is_feasible eps lp_solution A b [] = true
+    /\ round_binary_gen false eps lp_solution ints c A b minimize = Some (Some rd)
+    /\ is_feasible eps rd A b ints = false.
+Proof.
+  exists milp_eps_default, [1999999 # 2000000; 1 # 2], [0; 1]%nat, [1; 2], [[2000000; 0]; [0; 2]], [1999999; 1], false, [1; 0].
+  vm_compute. repeat split.
+Qed.
+
+(* the model's error value None can only come from _round_binary's fuel: the B&B loop never exhausts 2*max_nodes+2 *)
+Theorem C04_fuel_sufficient : forall lp lns eps gap_tol minimize max_iter max_nodes c A b ints warm_start solution_limit
+    heuristics lns_iterations,
+  solve_milp lp lns eps gap_tol minimize max_iter max_nodes c A b ints warm_start solution_limit heuristics lns_iterations = None ->
+  round_binary eps (n_sol (solve_node lp eps minimize max_iter c A b (repeat 0 (length c)) (repeat None (length c))))
+               ints c A b minimize = None.
+Proof. exact solve_milp_none. Qed.
+Print Assumptions C04_fuel_sufficient.
+
+(* ---------- non-vacuity *)
+(* max 5x+4y, 6x+4y<=24, x+2y<=6, x,y<=5 integer: optimum (4,0), 20, five nodes *)
+Definition ex_case : milp_case :=
+  mkK [5;4] [[6;4];[1;2];[1;0];[0;1]] [24;6;5;5] [0;1]%nat false milp_eps_default milp_gap_tol_default
+      None None None 1 false 0 None S_OPTIMAL (Some [4;0]) (Fin 20) (Some 5%nat) None.
 Example C04_model_runs_example :
-  run_case (mkK [5;4] [[6;4];[1;2];[1;0];[0;1]] [24;6;5;5] [0;1]%nat false milp_eps_default milp_gap_tol_default
-                None None None 1 false 0 None S_OPTIMAL None PInf None None)
-  = Some (mkM S_OPTIMAL (Some [4;0]) (Fin 20) 5 None).
-Proof. vm_compute. reflexivity. Qed.
+  run_case ex_case = Some (mkM S_OPTIMAL (Some [4;0]) (Fin 20) 5 None) /\ corr_check ex_case = true.
+Proof. vm_compute. split; reflexivity. Qed.
+
+(* binary knapsack with explicit x<=1 rows: detect_binary fires, the rounding heuristic gives an incumbent *)
+Definition ex_bin : milp_case :=
+  mkK [5;4;3] [[2;3;1];[1;0;0];[0;1;0];[0;0;1]] [4;1;1;1] [0;1;2]%nat false milp_eps_default milp_gap_tol_default
+      None None None 3 true 0 None S_OPTIMAL (Some [1;0;1]) (Fin 8) None (Some [[1;0;1]]).
+Example C04_hypotheses_nonvacuous :
+  milp_input_ok milp_eps_default (k_c ex_case) (k_A ex_case) (k_b ex_case) (k_ints ex_case) = true
+  /\ milp_input_ok milp_eps_default (k_c ex_bin) (k_A ex_bin) (k_b ex_bin) (k_ints ex_bin) = true
+  /\ detect_binary milp_eps_default (k_A ex_bin) (k_b ex_bin) (k_ints ex_bin) 3 = true
+  /\ (exists rd, round_binary milp_eps_default [1; 1#3; 1] (k_ints ex_bin) (k_c ex_bin) (k_A ex_bin) (k_b ex_bin) false = Some (Some rd))
+  /\ corr_check ex_bin = true.
+Proof. vm_compute. repeat split. eexists. reflexivity. Qed.
+
+Example C04_oracle_hypotheses_nonvacuous :
+  lp_sound (fun _ _ _ _ _ => (MAX_ITER, [], 0)) /\ (forall eps c A b ints, lns_ok (fun _ => None) eps c A b ints).
+Proof. split; [exact lp_sound_trivial|exact lns_ok_none]. Qed.
+
+(* INFEASIBLE and UNBOUNDED verdicts are reached by the model *)
+Example C04_verdicts_example :
+  (exists r, run_case (mkK [1] [[2];[-2];[1]] [1;-1;3] [0]%nat true milp_eps_default milp_gap_tol_default
+                      None None None 1 true 0 None S_INFEASIBLE None PInf None None) = Some r /\ m_status r = S_INFEASIBLE /\ m_nodes r = 3%nat)
+  /\ (exists r, run_case (mkK [-1;-1] [[1;-1];[1;0]] [1;2] [0]%nat true milp_eps_default milp_gap_tol_default
+                      None None None 1 true 0 None S_UNBOUNDED None NInf None None) = Some r /\ m_status r = S_UNBOUNDED).
+Proof. split; eexists; vm_compute; repeat split. Qed.
+
+(* the node limit without incumbent is MAX_ITER (commit 48990b1), not INFEASIBLE *)
+Example C04_nodelimit_example :
+  exists r, run_case (mkK [1] [[2]] [3] [0]%nat false milp_eps_default milp_gap_tol_default
+                      None (Some 1%nat) None 1 true 0 None S_MAX_ITER None NInf None None) = Some r /\ m_status r = S_MAX_ITER.
+Proof. eexists; vm_compute; repeat split. Qed.
